@@ -190,7 +190,7 @@ def oracle_dists(ctx, ss, sc):
                         break
     # a long earlier history (more than 1000 non-empty calls) must not matter either
     for fam in ('random', 'normal', 'bernoulli'):
-        slots = list(range(20)); seed = rng.randrange(10**6); ti_end = ctx.n(1300, 2600)
+        slots = list(range(20)); seed = rng.randrange(10**6); ti_end = ctx.n(1300, 2600) if not ctx.broken else 40000      # when a tie is broken the search goes far beyond any plausible history bound
         vals = []
         for busy in (False, True):
             d = {'random': lambda: ss.random(name='d'), 'normal': lambda: ss.normal(loc=1, scale=2, name='d'), 'bernoulli': lambda: ss.bernoulli(p=0.4, name='d')}[fam]()
